@@ -444,6 +444,8 @@ class Tr:
         self.subst = subst or {}     # textual path -> (coq atom, type)
         self.enums = enums or {}     # path string -> int
         self.n = 0
+        self.inline_scopes = []      # source texts in which private helper fns may be looked up and inlined
+        self.inline_depth = 0
 
     def fresh(self, base="tmp"):
         self.n += 1
@@ -535,6 +537,19 @@ class Tr:
                 return b1 + b2, "(%s, %s)" % (a1, a2), "pair"
             if fn in self.subst:
                 return [], self.subst[fn][0], self.subst[fn][1]
+            if fn in ("std::cmp::max", "std::cmp::min", "core::cmp::max", "core::cmp::min", "cmp::max", "cmp::min") and len(args) == 2:
+                b1, a1, t1 = self.expr(args[0], want)
+                b2, a2, t2 = self.expr(args[1], t1 if t1 != "int" else want)
+                return b1 + b2, "(Z.%s %s %s)" % (fn[-3:], a1, a2), (t1 if t1 != "int" else t2)
+            if self.inline_scopes:
+                bs, atoms = [], []
+                for x in args:
+                    b_, a_, t_ = self.expr(x, None)
+                    bs += b_
+                    atoms.append((a_, t_))
+                r = self.inline_call(e[1][1][-1], atoms, want)
+                if r is not None:
+                    return bs + r[0], r[1], r[2]
             raise TrError("unsupported call " + fn)
         if k == "method":
             return self.method(e, want)
@@ -596,7 +611,55 @@ class Tr:
             return b, "(match %s with Eq => %s | c => c end)" % (a, a2), "cmp"
         if name in ("get", "clone"):
             return b, a, t
+        if self.inline_scopes:
+            bs, atoms = list(b), []
+            for x in args:
+                b_, a_, t_ = self.expr(x, None)
+                bs += b_
+                atoms.append((a_, t_))
+            r = self.inline_call(name, atoms, want, self_arg=(a, t if t != "int" else (self.self_ty or "usize")))
+            if r is not None:
+                return bs + r[0], r[1], r[2]
         raise TrError("unsupported method ." + name)
+
+    def inline_call(self, name, arg_atoms, want, self_arg=None):
+        """Inline a private helper fn of the same file (a maintainer may extract one): parameters are bound to the
+        already translated argument atoms, the body is translated in place.  -> (binds, atom, type) or None."""
+        if self.inline_depth >= 3:
+            return None
+        for scope in self.inline_scopes:
+            try:
+                params, ret, body = find_fn(scope, name)
+            except TrError:
+                continue
+            plist = [x.strip() for x in params.split(",") if x.strip()]
+            env = {}
+            if plist and re.match(r"^(&\s*)?(mut\s+)?self$", plist[0]):
+                if self_arg is None:
+                    continue
+                env["self"] = self_arg
+                plist = plist[1:]
+            elif self_arg is not None:
+                continue
+            if len(plist) != len(arg_atoms):
+                continue
+            for pdecl, (a, t) in zip(plist, arg_atoms):
+                m = re.match(r"^(?:mut\s+)?(\w+)\s*:\s*(.+)$", pdecl)
+                if not m:
+                    return None
+                ty = m.group(2).strip()
+                env[m.group(1)] = (a, ty if ty in BITS else (NEWTYPES.get(ty) or (t if t != "int" else "usize")))
+            sub = Tr(env, self.consts, self_ty=self.self_ty, fields=self.fields, subst=self.subst, enums=self.enums)
+            sub.n = self.n
+            sub.inline_scopes = self.inline_scopes
+            sub.inline_depth = self.inline_depth + 1
+            rty = ret.replace("->", "").strip()
+            w = rty if rty in BITS else (NEWTYPES.get(rty) or want)
+            code, ty = sub.stmts(parse_body(body), w)
+            self.n = sub.n
+            v = self.fresh("h")
+            return [(v, code)], v, ty
+        return None
 
     def textual(self, e):
         k = e[0]
@@ -899,6 +962,7 @@ def translate_fn(src, impl, fn, coqname, params, self_ty=None, fields=None, subs
     ss = parse_body(body)
     e = dict(env or {})
     tr = Tr(e, consts or {}, self_ty=self_ty, fields=fields, subst=subst, enums=enums)
+    tr.inline_scopes = [scope] + ([src] if scope is not src else [])
     code, ty = tr.stmts(ss, want)
     return fn_def(coqname, params, code, "%s: %s%s" % (relfile, (impl + "::") if impl else "", fn))
 
@@ -917,6 +981,57 @@ def const_def(src, name, consts, enums, scope_re=None, relfile=""):
     return "(* %s: const %s *)\nDefinition %s : Z := %s.\n\n" % (relfile, name, name, term), want
 
 
+_INT_SUFFIX = re.compile(r"(?<=[0-9a-fA-F_])(u8|u16|u32|u64|u128|usize|i8|i16|i32|i64|i128|isize)$")
+
+
+def int_of_token(src, tok, depth=0):
+    """value of an integer literal, or of a named constant of the file whose initialiser is an integer literal or a
+    constant expression over literals / other such constants (a maintainer may name a magic number)"""
+    t = tok.strip()
+    lit = _INT_SUFFIX.sub("", t.replace("_", "")) if re.match(r"^\d", t) else None
+    if lit is not None:
+        try:
+            return int(lit, 0)
+        except ValueError:
+            raise TrError("not an integer literal: " + tok)
+    if depth > 4 or not re.match(r"^[A-Za-z_][A-Za-z0-9_]*$", t):
+        raise TrError("cannot evaluate %r as an integer constant" % tok)
+    m = re.search(r"\bconst\s+" + re.escape(t) + r"\s*:\s*[^=;]+?=\s*([^;]+);", src)
+    if not m:
+        raise TrError("anchored token %r is neither an integer literal nor a const of the file" % tok)
+    expr = m.group(1).strip()
+    parts = re.findall(r"0[xX][0-9a-fA-F_]+\w*|\d[\d_]*\w*|[A-Za-z_][A-Za-z0-9_:]*|<<|>>|[-+*/%()|&^!~]", expr)
+    if "".join(parts) != re.sub(r"\s+", "", expr):
+        raise TrError("const %s has an initialiser the translator cannot evaluate: %s" % (t, expr))
+    py = []
+    for q in parts:
+        if re.match(r"^(\d|0[xX])", q):
+            py.append(str(int_of_token(src, q, depth + 1)))
+        elif re.match(r"^[A-Za-z_]", q):
+            py.append(str(int_of_token(src, q.split("::")[-1], depth + 1)))
+        elif q == "/":
+            py.append("//")
+        elif q == "!":
+            raise TrError("const %s: bitwise not needs a width" % t)
+        else:
+            py.append(q)
+    try:
+        return int(eval(" ".join(py), {"__builtins__": {}}, {}))
+    except Exception as ex:
+        raise TrError("const %s: %s" % (t, ex))
+
+
+def resolve_ident(body, text, depth=0):
+    """`text` is the right-hand side found at an anchor; when it is just a local name (the value was hoisted into a
+    `let`), return that binding's right-hand side instead"""
+    t = text.strip()
+    if depth < 3 and re.match(r"^[a-z_][a-z0-9_]*$", t):
+        ms = re.findall(r"\blet\s+(?:mut\s+)?%s\s*(?::[^=;]+)?=\s*(.*?);" % re.escape(t), body, re.S)
+        if len(ms) == 1:
+            return resolve_ident(body, ms[0], depth + 1)
+    return t
+
+
 def anchored_literal(src, scope_fn, pattern, what, impl=None):
     """Extract one integer literal from a hand-modelled function by an anchored regex with one group."""
     scope = src
@@ -927,7 +1042,7 @@ def anchored_literal(src, scope_fn, pattern, what, impl=None):
     ms = re.findall(pattern, scope)
     if not ms:
         raise TrError("anchor not found for %s in fn %s: /%s/" % (what, scope_fn, pattern))
-    vals = set(int(x.replace("_", "").replace("u32", ""), 0) for x in ms)
+    vals = set(int_of_token(src, x) for x in ms)
     if len(vals) != 1:
         raise TrError("anchor for %s matches different literals %s" % (what, sorted(vals)))
     return vals.pop(), len(ms)
@@ -951,8 +1066,10 @@ def gen_timers(repo):
         nonlocal out
         try:
             out += f()
-        except TrError as ex:
+        except (TrError, ValueError, KeyError, IndexError, TypeError, AttributeError, AssertionError) as ex:
             probs.append("%s: %s" % (rel, ex))
+        except Exception as ex:       # a source shape the translator does not know: a broken tie, never a crash
+            probs.append("%s: translator cannot handle the source (%s: %s)" % (rel, type(ex).__name__, ex))
 
     dur = {"dur.as_secs()": ("dur_secs", "u64"), "dur.subsec_nanos()": ("dur_nanos", "u32")}
 
@@ -1008,24 +1125,34 @@ def gen_timers(repo):
                              env={"t0": ("t0", "u64"), "t1": ("t1", "u64")}, want="u64", relfile=rel))
 
     # anchored literals of the hand-modelled stateful functions
+    # (name, function, anchored pattern, value on the pinned tree).  When the pattern no longer matches (the code was
+    # respelled: helper extracted, receiver renamed ...) the model keeps the pinned value, a SOFT note is recorded and the
+    # tie for that constant rests on the state-exact correspondence, which the check then runs with the full search budget.
     lits = [
-        ("ADVANCE_STEP_SECS", "advance", r"self\.now\.add_secs\((\w+)\)\.min\(target_now\)", None),
-        ("ADVANCE_SPLIT_INC", "advance", r"WrapTime\(now\.wt\(\)\.0 \+ (\w+)\), 0\)", None),
-        ("ADVANCE_FIXED_BIT", "advance", r"key\.slot >= (\w+)", None),
-        ("ADVANCE_REQUEUE_SECS", "advance", r"min\(self\.now\.add_secs\((\w+)\)\)", None),
-        ("ADD_VAR_SECS", "add", r"expiry >= self\.now\.add_secs\((\w+)\)", None),
-        ("ADD_FIXED_BIT", "add", r"self\.seq \| (\w+)", None),
-        ("DEL_FIXED_BIT", "del", r"fk\.slot < (\w+)", None),
-        ("ADD_MAX_SECS", "add_max", r"min\(self\.now\.add_secs\((\w+)\)\)", None),
-        ("ADD_MIN_SECS", "add_min", r"min\(self\.now\.add_secs\((\w+)\)\)", None),
-        ("MOD_MIN_SECS", "mod_min", r"min\(self\.now\.add_secs\((\w+)\)\)", None),
-        ("ALLOC_GEN_START", "alloc_slot", r"VarSlot \{ gnn: (\w+), item \}", None),
-        ("FREE_GEN_MIN", "free_slot", r"wrapping_add\(1\)\.max\((\w+)\)", None),
+        ("ADVANCE_STEP_SECS", "advance", r"self\.now\.add_secs\((\w+)\)\.min\(target_now\)", 32767),
+        ("ADVANCE_SPLIT_INC", "advance", r"WrapTime\(now\.wt\(\)\.0 \+ (\w+)\), 0\)", 1),
+        ("ADVANCE_FIXED_BIT", "advance", r"key\.slot >= (\w+)", 2147483648),
+        ("ADVANCE_REQUEUE_SECS", "advance", r"min\(self\.now\.add_secs\((\w+)\)\)", 32767),
+        ("ADD_VAR_SECS", "add", r"expiry >= self\.now\.add_secs\((\w+)\)", 32767),
+        ("ADD_FIXED_BIT", "add", r"self\.seq \| (\w+)", 2147483648),
+        ("DEL_FIXED_BIT", "del", r"fk\.slot < (\w+)", 2147483648),
+        ("ADD_MAX_SECS", "add_max", r"min\(self\.now\.add_secs\((\w+)\)\)", 32767),
+        ("ADD_MIN_SECS", "add_min", r"min\(self\.now\.add_secs\((\w+)\)\)", 32767),
+        ("MOD_MIN_SECS", "mod_min", r"min\(self\.now\.add_secs\((\w+)\)\)", 32767),
+        ("ALLOC_GEN_START", "alloc_slot", r"VarSlot \{ gnn: (\w+), item \}", 1),
+        ("FREE_GEN_MIN", "free_slot", r"wrapping_add\(1\)\.max\((\w+)\)", 1),
     ]
     implT = r"<S: 'static> Timers<S>"
-    for name, fn, pat, _ in lits:
-        def one(name=name, fn=fn, pat=pat):
-            v, n = anchored_literal(src, fn, pat, name, impl=r"<S: 'static> Timers<S>")
+    for name, fn, pat, pinned in lits:
+        def one(name=name, fn=fn, pat=pat, pinned=pinned):
+            try:
+                v, n = anchored_literal(src, fn, pat, name, impl=r"<S: 'static> Timers<S>")
+            except TrError as ex:
+                if "anchor not found" not in str(ex):
+                    raise
+                SOFT.append("%s: literal anchor missing in Timers::%s for %s: /%s/ (model keeps the pinned value %d)" % (rel, fn, name, pat, pinned))
+                return "(* %s: literal in Timers::%s: anchor /%s/ not found, pinned value kept; tie = state-exact correspondence *)\nDefinition %s : Z := %d.\n\n" % (
+                    rel, fn, pat, name, pinned)
             return "(* %s: literal in Timers::%s matched by /%s/ (%d site%s) *)\nDefinition %s : Z := %d.\n\n" % (
                 rel, fn, pat, n, "" if n == 1 else "s", name, v)
         add(one)
@@ -1048,14 +1175,14 @@ def gen_timers(repo):
             _, _, body = find_fn(scopeT, fn)
             if not re.search(pat, body):
                 SOFT.append("%s: structural anchor missing in Timers::%s: /%s/" % (rel, fn, pat))
-        except TrError as ex:
+        except (TrError, ValueError, KeyError, IndexError, TypeError, AttributeError, AssertionError) as ex:
             probs.append("%s: %s" % (rel, ex))
     hashes = []
     for fn in ("next_expiry", "advance", "alloc_slot", "free_slot", "add", "del", "add_max", "mod_max", "del_max", "max_is_active",
                "add_min", "mod_min", "del_min", "min_is_active"):
         try:
             hashes.append((fn, token_hash(src, r"<S: 'static> Timers<S>", fn)))
-        except TrError as ex:
+        except (TrError, ValueError, KeyError, IndexError, TypeError, AttributeError, AssertionError) as ex:
             probs.append("%s: %s" % (rel, ex))
     return out, probs, hashes
 
@@ -1076,12 +1203,14 @@ def gen_count(repo):
         for m in re.finditer(r"(\w+)\s*=\s*(\d+)", r[0]):
             enums["State::" + m.group(1)] = int(m.group(2))
             out += "(* src/actor.rs: State::%s *)\nDefinition STATE_%s : Z := %s.\n\n" % (m.group(1), m.group(1).upper(), m.group(2))
-    for c in ("COUNT_SHIFT", "COUNT_INC", "COUNT_MASK"):
+    wanted = ["COUNT_SHIFT", "COUNT_INC", "COUNT_MASK"]
+    allc = [c for c in re.findall(r"\bconst\s+(\w+)\s*:\s*(?:usize|u32|u64)\s*=", src)]     # file order: a const may use earlier ones
+    for c in allc + [c for c in wanted if c not in allc]:
         try:
             d, ty = const_def(src, c, consts, enums, relfile=rel)
             consts[c] = ty
             out += d
-        except TrError as ex:
+        except (TrError, ValueError, KeyError, IndexError, TypeError, AttributeError, AssertionError) as ex:
             probs.append("%s: %s" % (rel, ex))
     selfE = {"self": ("self_", "usize")}
     for fn, params, env in (("new", [], {}), ("inc", ["self_"], selfE), ("dec", ["self_"], selfE),
@@ -1090,7 +1219,7 @@ def gen_count(repo):
         try:
             out += translate_fn(src, r"CountAndState", fn, "count_" + fn, params, self_ty="usize", env=env, enums=enums,
                                 consts=consts, want="usize" if fn in ("new", "inc", "set_state") else None, relfile=rel)
-        except TrError as ex:
+        except (TrError, ValueError, KeyError, IndexError, TypeError, AttributeError, AssertionError) as ex:
             probs.append("%s: %s::%s" % (rel, fn, ex))
     # MinRc drop table
     rel2 = "src/rc/minrc.rs"
@@ -1098,10 +1227,13 @@ def gen_count(repo):
     try:
         scope = find_impl(msrc, r"<T: \?Sized> Drop for MinRc<T>")
         _, _, body = find_fn(scope, "drop")
-        m = re.search(r"let \(count, went_to_zero\) = (match rcbox\.count\.get\(\) \{.*?\});", body, re.S)
+        m = re.search(r"let \(\w+, \w+\) = ((?:match|if)\b.*?\});\s*rcbox\.count\.(?:replace|set)\(", body, re.S)
         if not m:
             raise TrError("drop table not found")
-        tr = Tr({}, {}, subst={"rcbox.count.get()": ("count", "usize")})
+        env = {}
+        for nm in re.findall(r"\blet\s+(\w+)\s*=\s*rcbox\.count\.get\(\)\s*;", body):
+            env[nm] = ("count", "usize")          # the old count under a local name
+        tr = Tr(env, {}, subst={"rcbox.count.get()": ("count", "usize")})
         code, _ = tr.stmts([("tail", parse_expr_text(m.group(1)))], None)
         out += fn_def("minrc_drop", ["count"], code, "%s: MinRc::drop count table -> (new count, went_to_zero)" % rel2)
         scope = find_impl(msrc, r"<T: \?Sized> Clone for MinRc<T>")
@@ -1110,13 +1242,13 @@ def gen_count(repo):
         if not m:
             raise TrError("clone count update not found")
         tr = Tr({}, {}, subst={"rcbox.count.get()": ("count", "usize")})
-        code, _ = tr.stmts([("tail", parse_expr_text(m.group(1)))], "usize")
+        code, _ = tr.stmts([("tail", parse_expr_text(resolve_ident(body, m.group(1))))], "usize")
         out += fn_def("minrc_clone", ["count"], code, "%s: MinRc::clone count update" % rel2)
         m = re.search(r"count:\s*Cell::new\((\d+)\)", msrc)
         if not m:
             raise TrError("MinRc::new initial count not found")
         out += "(* %s: MinRc::new initial count *)\nDefinition MINRC_INIT : Z := %s.\n\n" % (rel2, m.group(1))
-    except TrError as ex:
+    except (TrError, ValueError, KeyError, IndexError, TypeError, AttributeError, AssertionError) as ex:
         probs.append("%s: %s" % (rel2, ex))
     return out, probs
 
@@ -1131,16 +1263,20 @@ def gen_flat(repo):
                             env={"off": ("off", "usize"), "pow2": ("pow2", "usize")}, want="usize", relfile=rel)
         # the pointer version: same expression on the address
         _, _, body = find_fn(src, "align")
-        m = re.search(r"let inc = (.*?);\s*unsafe\s*\{\s*p\.add\(inc\)\s*\}", body, re.S)
-        if not m:
-            raise TrError("fn align: expected `let inc = ..; unsafe { p.add(inc) }`")
-        e = parse_expr_text(m.group(1).replace("(p as usize)", "p"))
+        m = re.search(r"^(.*?)unsafe\s*\{\s*p\.add\((\w+)\)\s*\}", body, re.S)
+        lets = re.findall(r"let (\w+) = (.*?);", m.group(1), re.S) if m else []
+        if not m or not lets or lets[-1][0] != m.group(2):
+            raise TrError("fn align: expected `let .. ; let <inc> = ..; unsafe { p.add(<inc>) }`")
         tr = Tr({"p": ("p", "usize"), "pow2": ("pow2", "usize")}, {})
-        code, _ = tr.stmts([("let", ("var", "inc"), None, e), ("tail", ("bin", "+", ("path", ["p"]), ("path", ["inc"])))], "usize")
+        sts = [("let", ("var", nm), None, parse_expr_text(ex.replace("(p as usize)", "p"))) for nm, ex in lets]
+        code, _ = tr.stmts(sts + [("tail", ("bin", "+", ("path", ["p"]), ("path", [m.group(2)])))], "usize")
         out += fn_def("align_ptr", ["p", "pow2"], code, "%s: hvec::align (on the address; p.add(inc))" % rel)
         # req computation in HVec::push
         _, _, body = find_fn(src, "push")  # first `fn push` is FnOnceQueue::push; we need hvec's
         hv = find_block(src, r"\bmod\s+hvec\s*\{")[0]
+        # module-level names for size_of::<VP>() / align_of::<VP>() (a maintainer may name them): expand them textually
+        for cm in re.finditer(r"\bconst\s+(\w+)\s*:\s*usize\s*=\s*(mem::(?:size|align)_of::<VP>\(\))\s*;", hv):
+            hv = re.sub(r"(?<![\w:])%s(?![\w(])" % re.escape(cm.group(1)), cm.group(2), hv.replace(cm.group(0), ""))
         _, _, body = find_fn(find_impl(hv, r"HVec"), "push")
         lines = re.findall(r"let req = (.*?);", body, re.S)
         if len(lines) < 2:
@@ -1176,21 +1312,27 @@ def gen_flat(repo):
         # expand_storage size
         q = find_impl(src, r"<S: 'static> FnOnceQueue<S>")
         _, _, eb = find_fn(q, "expand_storage")
-        m = re.search(r"let size = (.*?);", eb, re.S)
+        m = re.search(r"let \w+ = ((?:(?!;).)*?next_power_of_two\(\));", eb, re.S)
         if not m:
-            raise TrError("expand_storage: `let size = ..;` not found")
+            raise TrError("expand_storage: `let <size> = .. .next_power_of_two();` not found")
+        # the one free variable of the size expression is the adjusted requirement (`req2` on the pinned tree)
+        free = [w for w in re.findall(r"(?<![\w.:])([a-z_][a-z0-9_]*)(?![\w(:])", m.group(1)) if w not in ("hv",)]
+        free = sorted(set(free))
+        if len(free) != 1:
+            raise TrError("expand_storage: size expression should have one free variable, found %s" % free)
+        size_expr = re.sub(r"(?<![\w.:])%s(?![\w(:])" % re.escape(free[0]), "req2", m.group(1))
         d, ty = const_def(q, "INITIAL_ALLOCATION", {}, {}, relfile=rel)
         out += d
         subst2 = {"hv.cap()": ("cap", "usize"), "Self::INITIAL_ALLOCATION": ("INITIAL_ALLOCATION", "usize")}
         tr = Tr({"req2": ("req2", "usize")}, {"INITIAL_ALLOCATION": "usize"}, subst=subst2)
-        code, _ = tr.stmts([("tail", parse_expr_text(m.group(1)))], "usize")
+        code, _ = tr.stmts([("tail", parse_expr_text(size_expr))], "usize")
         out += fn_def("expand_size", ["cap", "req2"], code, "%s: expand_storage new allocation size" % rel)
-        if not re.search(r"let push_old = hv\.len\(\) != 0;", eb):
-            SOFT.append(rel + ": expand_storage: `let push_old = hv.len() != 0;` not found")
-        if not re.search(r"req2 \+= mem::size_of::<\(\*mut \(\), FnOnceQueue<\(\)>\)>\(\);", eb):
+        if not re.search(r"let \w+ = hv\.len\(\) != 0;", eb):
+            SOFT.append(rel + ": expand_storage: `let <push_old> = hv.len() != 0;` not found")
+        if not re.search(r"\+=? mem::size_of::<\(\*mut \(\), FnOnceQueue<\(\)>\)>\(\)", eb):
             raise TrError("expand_storage: chained-queue size adjustment not found")
         out += "(* %s: size_of of the chained-queue item (raw pointer + FnOnceQueue) on 64-bit: 8 + 24; asserted against the harness at run time *)\nDefinition CHAIN_ITEM_SIZE : Z := 32.\n\n" % rel
-    except TrError as ex:
+    except (TrError, ValueError, KeyError, IndexError, TypeError, AttributeError, AssertionError) as ex:
         probs.append("%s: %s" % (rel, ex))
     return out, probs
 
@@ -1201,10 +1343,21 @@ def gen_core(repo):
     out = HEADER % rel
     probs = []
     try:
-        v, _ = anchored_literal(src, "drop", r"for \w+ in 0\.\.(\w+)\s*\{", "TEARDOWN_ROUNDS", impl=r"Drop for Stakker")
+        def soft_lit(fn, pats, what, impl, pinned):
+            """first pattern that matches decides; none matching: pinned value + SOFT note (the tie for this constant is
+            then the trace-exact runtime correspondence: the F4 chain cases pin the round count, the 60 s cases the period)"""
+            for pat in pats:
+                try:
+                    return anchored_literal(src, fn, pat, what, impl=impl)[0]
+                except TrError as ex:
+                    if "anchor not found" not in str(ex):
+                        raise
+            SOFT.append("%s: literal anchor missing in %s::%s for %s (model keeps the pinned value %d)" % (rel, impl, fn, what, pinned))
+            return pinned
+        v = soft_lit("drop", [r"for \w+ in 0\.\.(\w+)\s*\{", r"while \w+ < (\w+)\s*\{"], "TEARDOWN_ROUNDS", r"Drop for Stakker", 99)
         out += "(* %s: Stakker::drop drain rounds *)\nDefinition TEARDOWN_ROUNDS : Z := %d.\n\n" % (rel, v)
-        v1, _ = anchored_literal(src, "new", r"recreate_queues_time: now \+ Duration::from_secs\((\w+)\)", "RECREATE_SECS", impl=r"Stakker")
-        v2, _ = anchored_literal(src, "run", r"self\.recreate_queues_time = now \+ Duration::from_secs\((\w+)\)", "RECREATE_SECS", impl=r"Stakker")
+        v1 = soft_lit("new", [r"recreate_queues_\w+: now \+ Duration::from_secs\((\w+)\)"], "RECREATE_SECS", r"Stakker", 60)
+        v2 = soft_lit("run", [r"self\.recreate_queues_\w+ = now \+ Duration::from_secs\((\w+)\)"], "RECREATE_SECS", r"Stakker", 60)
         if v1 != v2:
             raise TrError("recreate period differs between new and run")
         out += "(* %s: queue recreation period (seconds) *)\nDefinition RECREATE_SECS : Z := %d.\n\n" % (rel, v1)
@@ -1213,7 +1366,7 @@ def gen_core(repo):
         if not m:
             raise TrError("log_span_open: log_id_seq update not found")
         tr = Tr({}, {}, subst={"self.log_id_seq": ("seq", "u64")})
-        code, _ = tr.stmts([("tail", parse_expr_text(m.group(1)))], "u64")
+        code, _ = tr.stmts([("tail", parse_expr_text(resolve_ident(body, m.group(1))))], "u64")
         out += fn_def("log_id_next", ["seq"], code, "%s: Core::log_span_open id allocation" % rel)
         _, _, rb = find_fn(find_impl(src, r"Stakker"), "run")
         for pat in (r"if now > self\.now \{\s*self\.now = now;\s*self\.timers\.advance\(now, &mut alt_main\);\s*\}",
@@ -1221,7 +1374,7 @@ def gen_core(repo):
                     r"if idle \{\s*if let Some\(cb\) = self\.idle_queue\.pop_front\(\) \{\s*cb\(self\);"):
             if not re.search(pat, rb):
                 SOFT.append("%s: structural anchor missing in Stakker::run: /%s/" % (rel, pat))
-    except TrError as ex:
+    except (TrError, ValueError, KeyError, IndexError, TypeError, AttributeError, AssertionError) as ex:
         probs.append("%s: %s" % (rel, ex))
     return out, probs
 
@@ -1244,10 +1397,19 @@ def gen_log(repo):
         # From<LogLevel>: match on variants
         scope = find_impl(src, r"From<LogLevel> for LogFilter")
         _, _, body = find_fn(scope, "from")
-        tr = Tr({"level": ("level", "u32")}, {}, self_ty="u32", enums=enums)
+        lconsts = {}
+        for cm in re.finditer(r"\bconst\s+(\w+)\s*:\s*u32\s*=\s*([^;]+);", src):      # named masks etc.
+            try:
+                lconsts[cm.group(1)] = int_of_token(src, cm.group(1))
+            except TrError:
+                pass
+        lsubst = dict((k, (str(v), "u32")) for k, v in lconsts.items())
+        lsubst.update(dict(("Self::" + k, (str(v), "u32")) for k, v in lconsts.items()))
+        tr = Tr({"level": ("level", "u32")}, {}, self_ty="u32", enums=enums, subst=lsubst)
+        tr.inline_scopes = [find_impl(src, r"LogFilter"), src]
         code, _ = tr.stmts(parse_body(body), "u32")
         out += fn_def("logfilter_from", ["level"], code, "%s: From<LogLevel> for LogFilter (level = discriminant)" % rel)
-    except TrError as ex:
+    except (TrError, ValueError, KeyError, IndexError, TypeError, AttributeError, AssertionError) as ex:
         probs.append("%s: %s" % (rel, ex))
     return out, probs
 
@@ -1296,13 +1458,22 @@ def gen_waker(repo):
         # drain recomposition
         _, _, dbody = find_fn(bm, "drain")
         m = re.search(r"cb\((.*?)\);", dbody)
-        tr = Tr({"a": ("a", "u32"), "b": ("b", "u32")}, cs, subst={"self.base_index": ("base_index", "u32")})
+        if not m:
+            raise TrError("BitMap::drain: cb(..) not found")
+        # the two closure parameters, whatever they are called: the one that is shifted is the leaf index
+        ma = re.search(r"(\w+)\s*<<\s*USIZE_INDEX_BITS", m.group(1))
+        free = [w for w in re.findall(r"(?<![\w.:])([a-z_][a-z0-9_]*)(?![\w(:])", m.group(1)) if w not in ("self",)]
+        rest = [w for w in dict.fromkeys(free) if not ma or w != ma.group(1)]
+        if not ma or len(rest) != 1:
+            raise TrError("BitMap::drain: recomposition `(<leaf index> << USIZE_INDEX_BITS) + <bit> + self.base_index` not recognised")
+        tr = Tr({ma.group(1): ("a", "u32"), rest[0]: ("b", "u32")}, cs, subst={"self.base_index": ("base_index", "u32")})
         code, _ = tr.stmts([("tail", parse_expr_text(m.group(1)))], "u32")
         out += fn_def("bitmap_join", ["a", "b", "base_index"], code, "%s: BitMap::drain bit recomposition" % rel)
         # WakeHandlers::add index arithmetic
         wh = find_impl(src, r"WakeHandlers")
         _, _, abody = find_fn(wh, "add")
-        subst = {"BitMap::SIZE": ("BITMAP_SIZE", "u32"), "BitMap::SIZE_BITS": ("BITMAP_SIZE_BITS", "u32")}
+        subst = {"BitMap::SIZE": ("BITMAP_SIZE", "u32"), "BitMap::SIZE_BITS": ("BITMAP_SIZE_BITS", "u32"),
+                 "Self::SIZE": ("BITMAP_SIZE", "u32"), "Self::SIZE_BITS": ("BITMAP_SIZE_BITS", "u32")}
         m1 = re.search(r"let mut base = (.*?);", abody)
         m2 = re.search(r"let vec_index = (.*?);", abody)
         m3 = re.search(r"let waker_slot = (.*?);", abody)
@@ -1310,7 +1481,9 @@ def gen_waker(repo):
             raise TrError("WakeHandlers::add: index arithmetic not found")
         for nm, mm in (("waker_base", m1), ("waker_vec_index", m2), ("waker_slot", m3)):
             tr = Tr({"bit": ("bit", "u32")}, cs, subst=subst)
-            code, _ = tr.stmts([("tail", parse_expr_text(mm.group(1)))], "u32")
+            tr.inline_scopes = [bm, src]
+            ex = re.sub(r"^\((.*)\) as usize$", r"\1", mm.group(1).strip())       # a cast hoisted into the binding
+            code, _ = tr.stmts([("tail", parse_expr_text(ex))], "u32")
             out += fn_def(nm, ["bit"], code, "%s: WakeHandlers::add %s" % (rel, nm))
         _, _, dl = find_fn(wh, "del")
         m = re.search(r"if (0 != \(bit & \(BitMap::SIZE - 1\)\)) && self\.slab\.contains", dl)
@@ -1323,7 +1496,7 @@ def gen_waker(repo):
         leaf = find_impl(src, r"Leaf")
         if not re.search(r"fetch_or\(1 << bit, ORDERING\)", leaf) or not re.search(r"swap\(0, ORDERING\)", leaf):
             SOFT.append(rel + ": Leaf::set/drain: atomic operations with ORDERING not found")
-    except (TrError, AttributeError) as ex:
+    except (TrError, ValueError, KeyError, IndexError, TypeError, AttributeError, AssertionError) as ex:
         probs.append("%s: %s" % (rel, ex))
     return out, probs
 
@@ -1334,13 +1507,16 @@ def generate(repo, outdir):
     del SOFT[:]
     problems = []
     files = {}
-    t, p, hashes = gen_timers(repo)
+    try:
+        t, p, hashes = gen_timers(repo)
+    except Exception as ex:
+        t, p, hashes = "(* translation failed: %s *)\n" % ex, ["SrcTimers.v: %s" % ex], []
     files["SrcTimers.v"] = t
     problems += p
     for name, fn in (("SrcCount.v", gen_count), ("SrcFlat.v", gen_flat), ("SrcCore.v", gen_core), ("SrcLog.v", gen_log), ("SrcWaker.v", gen_waker)):
         try:
             t, p = fn(repo)
-        except (TrError, OSError, TypeError, AttributeError) as ex:
+        except Exception as ex:
             t, p = "(* translation failed: %s *)\n" % ex, ["%s: %s" % (name, ex)]
         files[name] = t
         problems += p
